@@ -19,6 +19,7 @@ def snd_done(dll, k, now, wake):
 @unit("j1939.j1939_21:J1939_21.async_job_thread", props=["C01", "C03", "C06", "C07", "C09", "C10"])
 def _(self: "J1939_21", now: "real"):
     requires(inv21(self), now <= clock, now > 0)
+    returns("real")
     let("n0", len(trace))
     let("send", self.__send_message)
     # loops 4 and 5: padding of the last packet with 0xFF
